@@ -175,6 +175,29 @@ def overlap_retry(nw_b=1, nw_c=1, n=2):
     return p
 
 
+def racing_writers(kind="spin"):
+    """two workers of b: one returns the StopEvent while the other is still active -- writing to the stream on every loop
+    turn (kind='spin') or reporting from its cancellation handler (kind='cancel')."""
+    if kind == "spin":
+        body = [G, {"op": "spin_publish", "n": 6, "ty": "D", "only_k": 1}, {"op": "stop"}]
+    else:
+        body = [{"op": "gate", "on_cancel_publish": "D"}, {"op": "stop"}]
+    return {"timeout": None, "steps": {
+        "a": {"accepts": ["Start"], "nw": 1, "body": [{"op": "send", "ty": "A", "n": 2}, G, {"op": "none"}]},
+        "b": {"accepts": ["A"], "nw": 2, "body": body},
+    }}
+
+
+def collect_then_wait():
+    """c completes a collection and then suspends in wait_for_event in the same invocation: the replay must still see the set."""
+    return {"timeout": None, "steps": {
+        "a": {"accepts": ["Start"], "nw": 1, "body": [{"op": "send", "ty": "A", "n": 2}, G, {"op": "none"}]},
+        "c": {"accepts": ["A"], "nw": 1,
+              "body": [G, {"op": "collect", "expected": ["A", "A"]},
+                       {"op": "wait", "ty": "Resp", "wid": "w1", "timeout": None, "wev": True}, {"op": "stop"}]},
+    }}
+
+
 def family(name, quick=True):
     """Lists of (label, prog, ext_menu) per property family."""
     out = []
@@ -198,7 +221,9 @@ def family(name, quick=True):
         out.append(("wait_accept", wait_accept(), [("Resp", None)]))
         out.append(("overlap_retry(1,1,2)", overlap_retry(1, 1, 2), []))
     elif name == "collect":
-        grid = [(2, ("A", "A"), 3, False), (2, ("A", "B"), 3, False), (1, ("A", "A"), 3, False), (2, ("A", "A"), 4, True)]
+        out.append(("collect_then_wait", collect_then_wait(), [("Resp", None)]))
+        grid = [(2, ("A", "A"), 3, False), (2, ("A", "B"), 3, False), (1, ("A", "A"), 3, False), (2, ("A", "A"), 4, True),
+                (2, ("A", "B", "C"), 3, False), (2, ("A", "A", "B"), 4, False)]
         if not quick:
             grid += [(3, ("A", "A", "B"), 5, False), (3, ("A", "A"), 4, False), (2, ("A", "B"), 4, True), (2, ("A", "A", "B"), 6, False)]
         for (nw, exp, arr, ra) in grid:
@@ -233,6 +258,9 @@ def family(name, quick=True):
         pr["steps"]["b"]["retry"] = {"raising": True, "max": 2, "wait": ["fixed", 0]}
         out.append(("retry policy raises", pr, []))
         out.append(("junk", junk(), []))
+    elif name == "racing":
+        out.append(("racing_writers(spin)", racing_writers("spin"), []))
+        out.append(("racing_writers(cancel)", racing_writers("cancel"), []))
         out.append(("fanout", fanout(2, 3, 2, 0, 1, timeout=20), []))
     elif name == "retry":
         for n in ((0, 1, 2) if quick else (0, 1, 2, 3)):
